@@ -156,7 +156,7 @@ def _parse_lines(lines, b):
             b.tuples.add(rest)
         elif tag == "S":
             b.samples.append(rest)
-        elif tag == "END":
+        elif tag == "END" or tag == "RESTART":
             ended = True
     return last_start, ended
 
@@ -194,8 +194,16 @@ def run_batch(binary, prop, tier, first, count, outdir, workers=NCPU, extra=(), 
                 p.kill()
                 out, err = p.communicate()
                 raise RuntimeError("worker exceeded the batch wall-clock cap; partial output: %s" % out[-500:])
+            runs_before = b.runs
             last_start, ended = _parse_lines(out.split("\n"), b)
-            if p.returncode != 0 or not ended:
+            if p.returncode == 98 and ended:
+                # the worker ended itself after reporting a crash-class outcome of its last run
+                b.worker_deaths += 1
+                done = b.runs - runs_before
+                if n - done > 0:
+                    nf = frm + done * workers
+                    nxt.append((start(nf, n - done), nf, n - done))
+            elif p.returncode != 0 or not ended:
                 b.worker_deaths += 1
                 if last_start is None:
                     raise RuntimeError("worker died outside a run (rc=%s): %s" % (p.returncode, (err or "")[-2000:]))
